@@ -20,4 +20,14 @@ MCReadersN    == IF NReaders = 1 THEN {"r1"} ELSE IF NReaders = 2 THEN {"r1", "r
 MCHandle      == "h"
 MCReaderProgs == ToProgSet(ProgsIn.reader)
 MCHandleProgs == ToProgSet(ProgsIn.handle)
+
+(* Refinement: CfbLock on the extracted programs implements CfbLockN, the  *)
+(* N-thread machine whose deadlock freedom and mutual exclusion are proved *)
+(* for every number of threads (tlapm: 57 obligations).  A thread that     *)
+(* requests the lock while holding a guard has no counterpart there.       *)
+AbsSt == [t \in Threads |-> IF t \in waitR THEN "waitR" ELSE IF t \in waitW THEN "waitW"
+                            ELSE IF writer = t THEN "holdW" ELSE IF held[t] > 0 THEN "holdR" ELSE "idle"]
+Abs == INSTANCE CfbLockN WITH Threads <- Threads, st <- AbsSt
+Refines == Abs!Spec
+AbsProgress == Abs!Progress
 =============================================================================
